@@ -134,7 +134,7 @@ fn replace_ident(text: &str, name: &str, with: &str) -> String {
         }
         // next non-space chars: property key `name:` or `name?:`
         let next = text[e..].trim_start();
-        let is_key = (next.starts_with(':') || next.starts_with("?:")) && matches!(prev, Some('{') | Some(';') | Some(',') | Some('y') /* readonly */);
+        let is_key = (next.starts_with(':') || next.starts_with("?:")) && (matches!(prev, Some('{') | Some(';') | Some(',') | Some('y') /* readonly */) || before.ends_with("*/") /* a documented member */);
         if is_key {
             continue;
         }
